@@ -224,6 +224,7 @@ func run(seed int64, n int, dir string, _ []string) {
 	if bin != "" {
 		finalisationCorpus(o, bin, scratch)
 		headerlessCorpus(o, bin, scratch)
+		endingPlacement(o, bin, scratch)
 		if os.Getenv("VERIF_RELOAD") != "" {
 			lockedReload(o, bin, scratch)
 		}
